@@ -297,6 +297,71 @@ func main() {
 		fail("Delete: no nodePool.Put call")
 	}
 
+	// --- the pool is touched nowhere else.  The model (and c03_pool_nodes_clean) knows exactly one way into
+	// the pool (Delete, after formatting) and one way out (newNode, called by Put); a `nodePool.Put` on any
+	// other path — e.g. Put handing back a node it took up front, key and value still set — would put
+	// nodes into the pool that no theorem and no `freed=` observation ever looks at.
+	for _, d := range f.Decls {
+		fd, ok := d.(*ast.FuncDecl)
+		if !ok || fd.Body == nil {
+			continue
+		}
+		name := fd.Name.Name
+		ast.Inspect(fd.Body, func(n ast.Node) bool {
+			switch x := n.(type) {
+			case *ast.SelectorExpr:
+				if x.Sel.Name == "nodePool" && !(fd.Recv != nil && (name == "newNode" || name == "Delete")) {
+					fail("%s: touches nodePool (only newNode may Get and only Delete may Put)", name)
+				}
+			case *ast.CallExpr:
+				if s, ok := x.Fun.(*ast.SelectorExpr); ok && s.Sel.Name == "newNode" && !(fd.Recv != nil && name == "Put") {
+					fail("%s: calls newNode (only Put may)", name)
+				}
+			}
+			return true
+		})
+	}
+	// inside the two functions: newNode only Gets, Delete only Puts (each Put counted above)
+	poolCalls := func(fd *ast.FuncDecl) (gets, putsN, other int) {
+		ast.Inspect(fd.Body, func(n ast.Node) bool {
+			s, ok := n.(*ast.SelectorExpr)
+			if !ok || s.Sel.Name != "nodePool" {
+				return true
+			}
+			other++ // corrected below for the recognised calls
+			return true
+		})
+		ast.Inspect(fd.Body, func(n ast.Node) bool {
+			c, ok := n.(*ast.CallExpr)
+			if !ok {
+				return true
+			}
+			s, ok := c.Fun.(*ast.SelectorExpr)
+			if !ok {
+				return true
+			}
+			if _, fld, ok := fieldOf(s.X); !ok || fld != "nodePool" {
+				return true
+			}
+			switch s.Sel.Name {
+			case "Get":
+				gets++
+				other--
+			case "Put":
+				putsN++
+				other--
+			}
+			return true
+		})
+		return
+	}
+	if g, p, o := poolCalls(nn); g != 1 || p != 0 || o != 0 {
+		fail("newNode: expected exactly one nodePool.Get and nothing else on the pool (Get %d, Put %d, other %d)", g, p, o)
+	}
+	if g, p, o := poolCalls(del); g != 0 || p != puts || o != 0 {
+		fail("Delete: expected only the recognised nodePool.Put statements on the pool (Get %d, Put %d of %d recognised, other %d)", g, p, puts, o)
+	}
+
 	fmt.Printf(`/- GENERATED by harness/hashmapfacts from /repo/mapx/hashmap.go — do not edit. -/
 namespace Ekit.Gen.HashMapFacts
 
